@@ -83,6 +83,19 @@ def autoOverload (f : Feature) : Overload :=
 
 def fnan : Float := 0.0 / 0.0
 
+/-- the scalar buffer `dataset_t::select` returns unwritten (`Dataset.selectUnwritten`): its length is known, its contents
+    are not — printed as wildcards -/
+def showUnwritten (o : Overload) (n : Nat) (dropped : Bool) : String :=
+  match o with
+  | .scalar => s!"S2 {n}" ++ String.join (List.replicate n (if dropped then " nan" else " ?"))
+  | _ => "S? unwritten"
+
+/-- the view as the code returns it: `Dataset.select`, except for a foreign overload (`Dataset.selectForeign`) -/
+def showSelected (ds : Dataset) (f : Nat) (ov : Overload) (n : Nat) (v : View Float) : String :=
+  match ds.selectForeign f ov with
+  | some dropped => showUnwritten ov n dropped
+  | none => showView v
+
 /-- executes one history op; returns the new dataset, the remaining tokens, the remaining permutations and the result -/
 def hop (ds : Dataset) (perms : List (List Nat)) : Toks → Option (Dataset × List (List Nat) × Toks × String)
   | "flatten" :: ts => do
@@ -121,8 +134,8 @@ def hop (ds : Dataset) (perms : List (List Nat)) : Toks → Option (Dataset × L
     let ov : Option Overload :=
       if o < 0 then (ds.checkFeature f).bind (fun fi => (ds.feature fi).map autoOverload) else overloadOf o
     guard (o < 0 ∨ ov.isSome)
-    let r := match ov.bind (fun ov => ds.select (α := Float) l f ov) with
-      | some v => showView v
+    let r := match ov.bind (fun ov => (ds.select (α := Float) l f ov).map (fun v => (ov, v))) with
+      | some (ov, v) => showSelected ds f.toNat ov l.length v
       | none => "X"
     pure (ds, perms, ts, r)
   | "iselect" :: ts => do
@@ -131,7 +144,8 @@ def hop (ds : Dataset) (perms : List (List Nat)) : Toks → Option (Dataset × L
     let ov ← overloadOf k
     -- select_iterator_t: every feature whose descriptor is of the requested kind, in feature order
     let fs := (List.range ds.features).filter (fun f => ((ds.feature f).map ov.matches).getD false)
-    let rs := fs.mapM (fun f => (ds.select (α := Float) l (Int.ofNat f) ov).map (fun v => s!"{f} {showView v}"))
+    let rs := fs.mapM (fun f => (ds.select (α := Float) l (Int.ofNat f) ov).map (fun v =>
+      s!"{f} {showSelected ds f ov l.length v}"))
     let r := match rs with
       | some rs => String.intercalate " " (s!"I {rs.length}" :: rs)
       | none => "X"
@@ -213,9 +227,45 @@ def pGen : P (GKind × List Nat × List Nat) := fun ts => do
   | 5 => do
     let (l2, ts) ← pList pNat ts
     pure ((.product, l1, l2), ts)
+  | 6 => pure ((.gradient .sobel, l1, []), ts)      -- the constructors without a kernel type: sobel
+  | 7 => do
+    let (kc, ts) ← pNat ts
+    let k ← Kernel3.ofCode kc
+    pure ((.gradient k, l1, []), ts)
+  | 8 => do   -- `8 <list> <in> <out>`: a harness-defined computer through elemwise_generator_t
+    let (i1, ts) ← pNat ts
+    let (out, ts) ← pNat ts
+    let k1 ← IKind.ofCode i1
+    let out ← overloadOf (Int.ofNat out)
+    pure ((.custom ⟨k1, none, out⟩, l1, []), ts)
+  | 9 => do   -- `9 <list1> <list2> <in1> <in2> <out>`: through pairwise_generator_t
+    let (l2, ts) ← pList pNat ts
+    let (i1, ts) ← pNat ts
+    let (i2, ts) ← pNat ts
+    let (out, ts) ← pNat ts
+    let k1 ← IKind.ofCode i1
+    let k2 ← IKind.ofCode i2
+    let out ← overloadOf (Int.ofNat out)
+    pure ((.custom ⟨k1, some k2, out⟩, l1, l2), ts)
   | _ => none
 
+/-- `grad3 <kernel> <mode> <input type> <rows> <cols> <rows*cols pixels>`: `gradient3x3` on one image (function level) -/
+def handleGrad3 (ts : Toks) : Option String := do
+  let (kc, ts) ← pNat ts
+  let (mode, ts) ← pNat ts
+  let (_ity, ts) ← pNat ts
+  let (rows, ts) ← pNat ts
+  let (cols, ts) ← pNat ts
+  let (px, ts) ← pList pInt ts
+  guard ts.isEmpty
+  let k ← Kernel3.ofCode kc
+  guard (mode < 4 ∧ rows ≥ 3 ∧ cols ≥ 3 ∧ px.length = rows * cols)
+  let out ← gradient3x3 (α := Float) mode ⟨[rows, cols], px⟩ (makeKernel k) (rows - 2) (cols - 2)
+  let (k0, k1, k2) := makeKernel (α := Float) k
+  pure s!"ok K {hexOfFloat k0} {hexOfFloat k1} {hexOfFloat k2} O {rows - 2} {cols - 2} {showFloats out}"
+
 def handle : Toks → Option String
+  | "grad3" :: ts => handleGrad3 ts
   | "hist" :: ts => do
     let perms ← findPerms ts
     let (samples, ts) ← pNat ts
